@@ -25,6 +25,10 @@ type Config struct {
 	WantVector func() bool
 	StopOnViolation bool
 	QuickAssertMs int // time limit of the first attempt on the incremental solver; <0 skips it
+	// concrete re-execution of one recorded path (all inputs constants; only 'c' decisions are followed)
+	ConcreteInputs []InputVal
+	ConcretePrefix []int32
+	ConcreteKinds  string
 }
 
 type PortfolioStep struct {
